@@ -14,6 +14,7 @@ PROP = {'n_quick': 90,
              '(iteration order only enters through sums); explicit value/asset proofs are ideal proofs (exact value = witness equality)',
              'the serialize/deserialize hop is a parameter assumed to be the identity on the modelled fields (C07); the harness performs the real hop',
              'issuance ids are read from the case; pset::Input is built from the outpoint (no flag bits in previous_output_index, cf. F10)'],
+ 'tables': ['C04'],
  'assumes': ['issuances explicit with blinded_issuance = 0 (blind_checks refuses anything else)',
              'every party blinds at least one output (a party without outputs publishes no scalar, so its input blinding factors would be lost — '
              'exercised as an edge flow, model and crate agree that the result then fails BalanceCheckFailed)',
@@ -32,6 +33,6 @@ TEXT = {'text': 'Kernel-checked theorems in the ideal-commitment model (level: p
          'and the verdicts.',
  'design_ref': 'DESIGN.md section 6, C09',
  'note': 'Trusted: Coq kernel; the ideal-commitment idealisation; hand-written model of blind_checks/surjection_inputs/blind_non_last/blind_last/extract_tx '
-         'tied by per-run correspondence; the hop is assumed identity in the theorem and real in the harness. No finding.',
+         'tied by per-run correspondence; the hop is assumed identity in the theorem and real in the harness. No finding; unaffected by the repair branch (the flow builds PSET inputs from plain outpoints, uses no pegins, lock times, merge or unique_id; commitments on the hop are 33 bytes).',
  'technique': 'Coq proof in an ideal-commitment model (loop characterisation of blind_each, invariant over processed parties, scalar algebra in Z/n, '
               'permutation invariance) + per-run bit-exact model/implementation correspondence of the multi-party flow'}
